@@ -10,6 +10,30 @@ From Pq Require Import Base.Bytes Thrift.Varint Thrift.Compact Proofs.CompactPro
 Import ListNotations.
 Open Scope N_scope.
 
+Section Ids.
+Variable fids : list Z.
+Hypothesis Hasc : asc 0 fids.
+Local Notation w_thrift := (CThrift.w_thrift fids).
+Local Notation t_thrift := (CThriftSpec.t_thrift fids).
+Local Notation w_top := (CThrift.w_top fids).
+Local Notation t_top := (CThriftSpec.t_top fids).
+Local Notation ser := (CThrift.ser fids).
+Local Notation to_bytes := (CThrift.to_bytes fids).
+Local Notation dom := (CThriftSpec.dom fids).
+Local Notation w_thrift_spec := (CThriftProofs.w_thrift_spec fids Hasc).
+Local Notation ser_spec := (CThriftProofs.ser_spec fids Hasc).
+Local Notation t_good := (CThriftRoundtrip.t_good fids Hasc).
+Local Notation t_eq := (CThriftRoundtrip.t_eq fids Hasc).
+Local Notation to_bytes_fits := (CThriftRoundtrip.to_bytes_fits fids).
+Local Notation t_thrift_S := (CThriftRoundtrip.t_thrift_S fids).
+Local Notation dom_fields := (CThriftRoundtrip.dom_fields fids).
+Local Notation t_dict := (CThriftRoundtrip.t_dict fids).
+Local Notation ser_dict := (CThriftMain.ser_dict fids Hasc).
+Local Notation roundtrip := (CThriftMain.roundtrip fids Hasc).
+(* the largest field id the loop writes, and completeness of the id list up to it *)
+Variable maxid : N.
+Hypothesis Hmax : forall id, 0 < id -> id <= maxid -> In (Z.of_N id) fids.
+
 Fixpoint reser_ok (t : tv) : bool :=
   match t with
   | TBool _ => true
@@ -35,7 +59,7 @@ Fixpoint reser_ok (t : tv) : bool :=
       (fix allf (last : N) (fs : list (N * tv)) : bool :=
          match fs with
          | [] => true
-         | (id, x) :: r => (last <? id) && (id <=? 13) && reser_ok x && allf id r
+         | (id, x) :: r => (last <? id) && (id <=? maxid) && reser_ok x && allf id r
          end) 0 fs
   end.
 Definition reser_elem (ety : N) (x : tv) : bool :=
@@ -51,7 +75,7 @@ Definition reser_fields : N -> list (N * tv) -> bool :=
   fix allf (last : N) (fs : list (N * tv)) : bool :=
     match fs with
     | [] => true
-    | (id, x) :: r => (last <? id) && (id <=? 13) && reser_ok x && allf id r
+    | (id, x) :: r => (last <? id) && (id <=? maxid) && reser_ok x && allf id r
     end.
 Lemma reser_list ety l : reser_ok (TList ety l) =
   match l with [] => ety =? 0 | _ => (ety =? 5) || (ety =? 8) || (ety =? 12) end && reser_elems ety l.
@@ -92,7 +116,7 @@ Proof.
 Qed.
 
 Lemma reser_fields_ids : forall fs last, reser_fields last fs = true ->
-  Forall (fun p => last < fst p /\ fst p <= 13) fs.
+  Forall (fun p => last < fst p /\ fst p <= maxid) fs.
 Proof.
   induction fs as [|[id x] fs IH]; intros last H; constructor.
   - cbn [reser_fields] in H. fold reser_fields in H.
@@ -272,14 +296,6 @@ Proof.
     apply andb_true_iff in H; destruct H as [_ Hx]; [exact Hx|apply (IH id Hr)].
 Qed.
 
-Lemma in_ids13 id : 0 < id -> id <= 13 -> In (Z.of_N id) ids13.
-Proof.
-  intros H0 H13.
-  assert (Z.of_N id = 1 \/ Z.of_N id = 2 \/ Z.of_N id = 3 \/ Z.of_N id = 4 \/ Z.of_N id = 5 \/ Z.of_N id = 6 \/ Z.of_N id = 7 \/
-          Z.of_N id = 8 \/ Z.of_N id = 9 \/ Z.of_N id = 10 \/ Z.of_N id = 11 \/ Z.of_N id = 12 \/ Z.of_N id = 13)%Z as H by lia.
-  unfold ids13. cbn [In]. intuition.
-Qed.
-
 Lemma depth_fields_forall : forall fs n, (depth_fields fs <= n)%nat -> Forall (fun p => (depth (snd p) <= n)%nat) fs.
 Proof.
   induction fs as [|[id x] fs IH]; intros n H; constructor; cbn [depth_fields] in H; fold depth_fields in H.
@@ -292,9 +308,9 @@ Theorem t_thrift_back : forall d, struct_back (t_dict d) d -> forall fs, (depth_
 Proof.
   intros d Hs fs Hd Hr. rewrite reser_struct in Hr. rewrite t_thrift_S.
   rewrite <- (app_nil_l (pv_of_fields fs)).
-  rewrite (t_fields_back (t_field (t_dict d) (m32 fs) (m32l fs)) ids13 0%Z fs [] ltac:(lia) ids13_asc Hr); [reflexivity| | |constructor].
+  rewrite (t_fields_back (t_field (t_dict d) (m32 fs) (m32l fs)) fids 0%Z fs [] ltac:(lia) Hasc Hr); [reflexivity| | |constructor].
   - pose proof (reser_fields_ids _ _ Hr) as Hids. eapply Forall_impl; [|exact Hids].
-    intros [id x] [G1 G2]. cbn [fst] in *. apply in_ids13; lia.
+    intros [id x] [G1 G2]. cbn [fst] in *. apply Hmax; lia.
   - pose proof (reser_fields_forall _ _ Hr) as Hok. pose proof (depth_fields_forall fs d Hd) as Hdf.
     apply Forall_forall. intros [k x] Hin. cbn [fst snd].
     apply (field_back (t_dict d) d fs k x Hs).
@@ -322,4 +338,23 @@ Theorem reserialise fs : (depth (TStruct fs) <= w_depth)%nat -> reser_ok (TStruc
 Proof.
   intros Hd Hr. rewrite pv_of_struct. fold (m32 fs). fold (m32l fs).
   rewrite ser_dict, (reser_gen w_depth fs Hd Hr). reflexivity.
+Qed.
+End Ids.
+
+Lemma in_ids13 id : 0 < id -> id <= 13 -> In (Z.of_N id) ids13.
+Proof.
+  intros H0 H13.
+  assert (Z.of_N id = 1 \/ Z.of_N id = 2 \/ Z.of_N id = 3 \/ Z.of_N id = 4 \/ Z.of_N id = 5 \/ Z.of_N id = 6 \/ Z.of_N id = 7 \/
+          Z.of_N id = 8 \/ Z.of_N id = 9 \/ Z.of_N id = 10 \/ Z.of_N id = 11 \/ Z.of_N id = 12 \/ Z.of_N id = 13)%Z as H by lia.
+  unfold ids13. cbn [In]. intuition.
+Qed.
+
+
+
+Lemma in_ids14 id : 0 < id -> id <= 14 -> In (Z.of_N id) ids14.
+Proof.
+  intros H0 H14.
+  assert (Z.of_N id = 1 \/ Z.of_N id = 2 \/ Z.of_N id = 3 \/ Z.of_N id = 4 \/ Z.of_N id = 5 \/ Z.of_N id = 6 \/ Z.of_N id = 7 \/
+          Z.of_N id = 8 \/ Z.of_N id = 9 \/ Z.of_N id = 10 \/ Z.of_N id = 11 \/ Z.of_N id = 12 \/ Z.of_N id = 13 \/ Z.of_N id = 14)%Z as H by lia.
+  unfold ids14. cbn [In]. intuition.
 Qed.
